@@ -272,7 +272,18 @@ def flow_cases(draw):
             "xraw": draw(st.lists(st.floats(-2, 2), min_size=3, max_size=3))}
 
 
+@st.composite
+def planar_cases(draw):
+    sp = draw(gen.flow_spec(3, ["planar_flow"]))
+    sp["cond_dim"] = None
+    sp["negative_slope"] = draw(st.sampled_from([0.1, 0.5, 1.0]))
+    sp["pscale"] = draw(st.sampled_from([1.0, 2.0, 2.0]))
+    return {"spec": sp, "key": draw(st.integers(0, 10**6)), "craw": [0.0], "xraw": draw(st.lists(st.floats(-2, 2), min_size=3, max_size=3))}
+
+
 def run(ctx):
     q = ctx.tier == "quick"
     run_hypothesis(ctx, hand_cases(), oracle, 45 if q else 600, "C03-hand")
     run_hypothesis(ctx, flow_cases(), oracle, 14 if q else 180, "C03-flows")
+    # leaky-relu planar flows far from their 0.01*N(0,1) initialisation: both evaluation paths exist only there
+    run_hypothesis(ctx, planar_cases(), oracle, 5 if q else 60, "C03-planar-far-from-init")
